@@ -451,6 +451,14 @@ inline void run(mc::Reporter& r, Catalogue const& cat_)
             ++next;
         }
     }
+    {
+        std::string all;
+        for (auto const& s : sites) {
+            auto pos = s.find("include/etl/");
+            all += (all.empty() ? "" : " ") + (pos == std::string::npos ? s : s.substr(pos + 12));
+        }
+        r.note("handler sites reached: " + all);
+    }
     r.count("operations", subjects.size());
     r.count("handler_sites_reached", sites.size());
     r.count("worker_forks", forks);
